@@ -284,6 +284,11 @@ def run(ctx):
     ctx.evaluations += 3
     if why:
         ctx.problem('oracle', 'property fails on the implementation: ' + why, inputs={'suite': 'kernel_basis_small_scale'}, failing_input_found=True)
+    why = probe_histories()
+    ctx.suites['histories'] = {'cases': 18, 'failure': why}
+    ctx.evaluations += 18
+    if why:
+        ctx.problem('oracle', 'property fails on the implementation: ' + why, inputs={'suite': 'histories'}, failing_input_found=True)
     # the listed witness of F7
     if 'F7' in kf:
         if probe_f7():
@@ -443,7 +448,72 @@ def probe_kernel_scale():
     return None
 
 
+def probe_histories():
+    """what was compiled earlier in the session, and global options changed between declaring a constraint and compiling it, do not
+    change the bound"""
+    import sageopt.coniclifts as cl
+    import sageopt as so
+    import sageopt.coniclifts.constraints.set_membership.sage_cones as sc
+    from sageopt.relaxations import sage_sigs as ss
+    saved = dict(sc.SETTINGS)
+    try:
+        with warnings.catch_warnings():
+            warnings.simplefilter('ignore')
+            # (1) the same exponents with another sign pattern, relaxed earlier with the presolve on
+            for alpha, c_bad, c_good in (([[0.0], [1.0], [2.0], [3.0], [4.0]], [2.0, 1.0, 1.5, -2.0, -1.0], [2.0, 1.0, 1.5, -2.0, 1.0]),
+                                         ([[0.0, 0.0], [2.0, 0.0], [0.0, 2.0], [1.0, 1.0]], [1.0, -1.0, 1.0, -1.0], [1.0, 1.0, 1.0, -1.0])):
+                a = np.array(alpha)
+                f_bad, f_good = so.Signomial(a, np.array(c_bad)), so.Signomial(a, np.array(c_good))
+                sc.SETTINGS.update(saved)
+                cl.presolve_trivial_age_cones(False)
+                ref = ss.sig_relaxation(f_good, form='dual').solve(verbose=False)
+                cl.presolve_trivial_age_cones(True)
+                for form in ('dual', 'primal'):
+                    try:
+                        ss.sig_relaxation(f_bad, form=form).solve(verbose=False)
+                    except RuntimeError:
+                        pass
+                for pre in (True, False):
+                    cl.presolve_trivial_age_cones(pre)
+                    for form in ('primal', 'dual'):
+                        try:
+                            got = ss.sig_relaxation(f_good, form=form).solve(verbose=False)
+                        except RuntimeError:
+                            got = ('solved', -math.inf)
+                        if got[0] != ref[0] or not (got[1] == ref[1] or abs(got[1] - ref[1]) <= 1e-5 * (1 + abs(ref[1]))):
+                            return ('after relaxing a signomial with the same exponents %s and coefficients %s (presolve on), the %s bound of the '
+                                    'signomial with coefficients %s and presolve_trivial_age_cones=%s is %r; without that history it is %r'
+                                    % (alpha, c_bad, form, c_good, pre, got, ref))
+            # (2) global options changed after a constraint was declared and before the Problem is compiled
+            alpha5 = np.array([[0.0, 0.0], [2.0, 0.0], [0.0, 2.0], [1.0, 1.0], [1.0, 0.0]])
+
+            def declare(tag):
+                g = cl.Variable(shape=(1,), name='late_g_' + tag)
+                return g, cl.PrimalSageCone(cl.Expression([1.0 - g[0], 1.0, 1.0, -1.5, -0.5]), alpha5, None, 'late_' + tag)
+            sc.SETTINGS.update(saved)
+            g0, con0 = declare('ref')
+            ref = cl.Problem(cl.MAX, g0[0], [con0]).solve(verbose=False)
+            for fn in (cl.kernel_basis_age_witnesses, cl.sum_age_force_equality, cl.presolve_trivial_age_cones, cl.compact_sage_duals,
+                       cl.heuristic_reduce_cond_age_cones):
+                for val in (True, False):
+                    sc.SETTINGS.update(saved)
+                    g1, con1 = declare('%s_%s' % (fn.__name__, val))
+                    fn(val)
+                    _g2, _con2 = declare('other')          # the option was meant for a constraint declared next
+                    got = cl.Problem(cl.MAX, g1[0], [con1]).solve(verbose=False)
+                    if got[0] != ref[0] or abs(got[1] - ref[1]) > 1e-5 * (1 + abs(ref[1])):
+                        return ('a primal SAGE constraint declared under the default options and compiled after %s(%s) gives %r; compiled right '
+                                'away it gives %r' % (fn.__name__, val, got, ref))
+    finally:
+        sc.SETTINGS.clear()
+        sc.SETTINGS.update(saved)
+    return None
+
+
 def search(ctx):
+    why = probe_histories()
+    if why:
+        return {'suite': 'histories', 'property_failure': why}
     why = probe_kernel_scale()
     if why:
         return {'suite': 'kernel_basis_small_scale', 'property_failure': why}
